@@ -50,7 +50,7 @@ def polyval_stub(c, t):
 def _detrend(W, x, order):
     import speckit.dsp as D
     if W.sym:
-        f = clone(D.polynomial_detrend, np=NumpyShim(polyfit=polyfit_stub, polyval=polyval_stub))
+        f = clone_module(D, dict(np=NumpyShim(polyfit=polyfit_stub, polyval=polyval_stub)))["polynomial_detrend"]
         return f(x, order)
     return D.polynomial_detrend(rnp.asarray(x, dtype=float), order)
 
@@ -93,7 +93,7 @@ def ob_df_detrend(W, inplace, order):
     df = pd.DataFrame({"a": [1.0, 2.0, 4.0], "b": [3, 1, 2], "s": ["x", "y", "z"], "c": [9.0, 8.0, 7.0]})
     before = df.copy(deep=True)
     if W.sym:
-        out = clone(D.df_detrend, np=NumpyShim(), polynomial_detrend=rec)(df, columns=["b", "s", "a"], order=order, inplace=inplace)
+        out = clone_module(D, dict(np=NumpyShim(), polynomial_detrend=rec))["df_detrend"](df, columns=["b", "s", "a"], order=order, inplace=inplace)
     else:
         old = D.polynomial_detrend
         D.polynomial_detrend = rec
@@ -203,8 +203,10 @@ def ob_get_rms(W, reversed_band):
     if W.sym:
         W.run.concrete_masks = True
         GD = clone_module(D, dict(np=NumpyShim()))
-        f = clone(A.SpectrumResult.get_rms, np=NumpyShim(), integral_rms=GD["integral_rms"])
-        out = f(r, band)
+        # the result object is an instance of the fully cloned SpectrumResult: point its module namespace at the cloned dsp code
+        _g = next(v.__globals__ for v in vars(type(r)).values() if hasattr(v, "__globals__"))
+        _g["integral_rms"] = GD["integral_rms"]
+        out = r.get_rms(band)
     else:
         out = r.get_rms(band)
     psd = [R.el(r.psd, i) for i in range(3)]
@@ -214,7 +216,7 @@ def ob_get_rms(W, reversed_band):
         if inside[i] and inside[i + 1]:
             ref = ref + (psd[i] + psd[i + 1]) * (fv[i + 1] - fv[i]) / 2
     W.goal("get_rms^2 = trapezoid of psd over the in-band points", W.eq(out * out, ref), inside=inside)
-    full = r.get_rms(None) if not W.sym else clone(A.SpectrumResult.get_rms, np=NumpyShim(), integral_rms=GD["integral_rms"])(r, None)
+    full = r.get_rms(None)
     W.goal("get_rms(None) = full band", W.eq(full * full, sum((psd[i] + psd[i + 1]) * (fv[i + 1] - fv[i]) / 2 for i in range(2))))
 
 
